@@ -220,6 +220,36 @@ func genConcCase(rng *simrt.Rng, o *ConcOpts) *ConcCase {
 			}
 		}
 	}
+	if resize == 3 && !o.Rounds && rng.Intn(2) == 0 {
+		// the "resize duel": one task inserts fresh keys until the big table grows, the others remove
+		// filler keys all the while - each removal lingers in its (slow) atomic handler with the node
+		// retired and the slot not yet cleared, which is where a copier must not look without the lock
+		cc.Tasks = nil
+		var ins []Op
+		for i := 0; i < 6+rng.Intn(8); i++ {
+			ins = append(ins, Op{Kind: "set", K: 2000 + i, V: pg.newVal()})
+		}
+		if cfg.bounded() {
+			// ... and keeps inserting until the policy is at its maximum again whatever the removers
+			// took out, so that an entry the policy does not know of shows as an exceeded bound
+			for i := 0; i < 50; i++ {
+				ins = append(ins, Op{Kind: "set", K: 3000 + i, V: pg.newVal()})
+			}
+		}
+		cc.Tasks = append(cc.Tasks, ins)
+		for t := 0; t < 1+rng.Intn(3); t++ {
+			var rm []Op
+			for i := 0; i < 6+rng.Intn(10); i++ {
+				k := 100 + rng.Intn(460)
+				if rng.Intn(4) == 0 {
+					rm = append(rm, Op{Kind: "set", K: k, V: pg.newVal()})
+				} else {
+					rm = append(rm, Op{Kind: "invalidate", K: k})
+				}
+			}
+			cc.Tasks = append(cc.Tasks, rm)
+		}
+	}
 	if (o.SweepCheck || o.Duel) && rng.Intn(3) == 0 {
 		sweepDuel(rng, cc, pg)
 	}
